@@ -67,6 +67,9 @@ OnTxCon(s0, e) ==
   IF FirstTx_ok(s, e.s, e.mid)
   THEN IF FirstTx_nstart(s, e.s) THEN OK(FirstTx_do(s, e.s, e.mid, e.sig))
        ELSE Bad(s0, "C08:nstart-exceeded")
+  ELSE IF e.code = 0 /\ e.tok = "" /\ Ping_ok(s, e.s, e.mid)          \* a keepalive ping of the library's own
+  THEN IF Ping_nstart(s, e.s) THEN OK(Ping_do(s, e.s, e.mid, "", e.sig))
+       ELSE Bad(s0, "C08:nstart-exceeded")
   ELSE IF k \in DOMAIN s.fl
   THEN IF ~Retransmit_bytes(s, k, e.sig) THEN Bad(s0, "C06:retransmission-not-identical")
        ELSE IF ~Retransmit_count(s, k) THEN Bad(s0, "C06:more-than-max-retransmit")
